@@ -16,6 +16,7 @@ type EV struct {
 	T     Term
 	Ty    types.Type
 	Loc   *Loc
+	Cell  *Loc // the name denotes the variable stored here (value read from the state being evaluated in)
 	Tuple []EV
 	IsNil bool // the untyped nil literal
 }
@@ -196,6 +197,9 @@ func (c *EvalCtx) eval(e Expr) EV {
 func (c *EvalCtx) ident(name string) EV {
 	fr := c.fr
 	if v, ok := c.vars[name]; ok {
+		if v.Cell != nil {
+			return EV{T: fr.load(v.Cell), Ty: v.Ty}
+		}
 		return v
 	}
 	if name == "result" {
@@ -602,8 +606,7 @@ func (c *EvalCtx) heapCompArgsTV(spec string, pkgPath string, tv map[string]type
 		return []Term{h.Get(fr.st, boxComp(ty), ArraySort(SInt, s))}
 	case spec == "chans":
 		return []Term{h.Get(fr.st, chanClosedComp, ArraySort(SInt, SBool))}
-	case spec == "maplen":
-		return []Term{h.Get(fr.st, mapLenComp, ArraySort(SInt, SInt))}
+
 	}
 	c.fail("unknown heap component %q in reads clause", spec)
 	return nil
@@ -722,8 +725,9 @@ func (c *EvalCtx) call(e ECall) EV {
 		case SSlice:
 			return EV{T: app(SInt, "s-len", xt), Ty: intT}
 		case SInt:
-			if _, ok := types.Unalias(x.Ty).Underlying().(*types.Map); ok {
-				return EV{T: Ite(Eq(xt, Nil), IntLit(0), fr.mapLen(xt)), Ty: intT}
+			if mt, ok := types.Unalias(x.Ty).Underlying().(*types.Map); ok {
+				fr.mapLenFacts(xt, mt)
+				return EV{T: Ite(Eq(xt, Nil), IntLit(0), fr.mapLen(xt, mt)), Ty: intT}
 			}
 		}
 		c.fail("len of %s", ExprString(e.Args[0]))
